@@ -11,6 +11,7 @@ import (
 	"os"
 	"path/filepath"
 	"sort"
+	"strconv"
 	"strings"
 
 	"golang.org/x/tools/go/packages"
@@ -34,6 +35,10 @@ type Program struct {
 	funcDecls map[*types.Func]*FuncInfo
 	varFuncs  map[*types.Var]*FuncInfo
 	AllFuncs  []*FuncInfo // every function/method declared in non-test files of module packages
+
+	expanded    []expandedRange
+	Inlined     []string // private helpers that were expanded at all their call sites (inline.go)
+	InlineNotes []string // expansions that were planned but not used
 
 	fieldAlias  map[string]*types.Var // re-identified renamed anchor fields, by "pkg.Type.field" (anchors.go)
 	AnchorNotes []string              // what was re-identified, for the evidence
@@ -140,6 +145,126 @@ func ShortPkg(path string) string {
 // Load loads the repository at dir. Any list or type error is returned: a tree
 // that does not type-check cannot be judged.
 func Load(dir string, overlay map[string][]byte) (*Program, error) {
+	p, err := loadOnce(dir, overlay)
+	if err != nil || os.Getenv("VERIF_NOINLINE") != "" {
+		return p, err
+	}
+	// normal form: expand small private helpers at their call sites (inline.go), then load the expanded program
+	everInlined := map[string]bool{}
+	var notes []string
+	skipPkg := map[string]bool{}
+	for round := 1; round <= maxInlineRounds; round++ {
+		ov, names := p.inlinePass(overlay, skipPkg)
+		if len(names) == 0 {
+			break
+		}
+		q, err := loadOnce(dir, ov)
+		if err != nil && len(skipPkg) == 0 {
+			// leave out the packages whose expansion did not type-check and try once more
+			for _, pkg := range p.Pkgs {
+				for _, f := range pkg.GoFiles {
+					if strings.Contains(err.Error(), f+":") {
+						skipPkg[pkg.PkgPath] = true
+					}
+				}
+			}
+			notes = append(notes, fmt.Sprintf("round %d: an expansion did not type-check (%v); retried without the packages concerned", round, firstLine(err.Error())))
+			if os.Getenv("VERIF_INLINE_DEBUG") != "" {
+				fmt.Fprintln(os.Stderr, "inline:", notes[len(notes)-1])
+				for f, b := range ov {
+					os.WriteFile(filepath.Join(os.TempDir(), "inline-debug-"+filepath.Base(f)), b, 0o644)
+				}
+			}
+			if len(skipPkg) > 0 {
+				round--
+				continue
+			}
+		}
+		if err != nil {
+			notes = append(notes, fmt.Sprintf("round %d: expansion of %s did not type-check and was not used (%v)", round, strings.Join(names, ", "), firstLine(err.Error())))
+			if os.Getenv("VERIF_INLINE_DEBUG") != "" {
+				fmt.Fprintln(os.Stderr, "inline:", notes[len(notes)-1])
+				for f, b := range ov {
+					os.WriteFile(filepath.Join(os.TempDir(), "inline-debug-"+filepath.Base(f)), b, 0o644)
+				}
+			}
+			break
+		}
+		for _, n := range names {
+			everInlined[n] = true
+		}
+		p, overlay = q, ov
+	}
+	p.InlineNotes = notes
+	if d := os.Getenv("VERIF_INLINE_DUMP"); d != "" {
+		for f, b := range overlay {
+			os.WriteFile(filepath.Join(d, strings.ReplaceAll(strings.TrimPrefix(f, dir+"/"), "/", "__")), b, 0o644)
+		}
+	}
+	if len(everInlined) > 0 {
+		p.dropInlined(everInlined)
+	}
+	return p, nil
+}
+
+func firstLine(s string) string {
+	if len(s) > 300 {
+		s = s[:300]
+	}
+	return s
+}
+
+type expandedRange struct {
+	file     string
+	from, to int
+}
+
+// ExpandedPos reports whether "file:line" lies in the declaration of a helper that was expanded at its call sites.
+func (p *Program) ExpandedPos(pos string) bool {
+	i := strings.LastIndex(pos, ":")
+	if i < 0 {
+		return false
+	}
+	line, err := strconv.Atoi(pos[i+1:])
+	if err != nil {
+		return false
+	}
+	for _, r := range p.expanded {
+		if r.file == pos[:i] && r.from <= line && line <= r.to {
+			return true
+		}
+	}
+	return false
+}
+
+// dropInlined removes the declarations of expanded helpers that nothing refers to any more.
+func (p *Program) dropInlined(names map[string]bool) {
+	used := map[*types.Func]bool{}
+	for _, pkg := range p.Pkgs {
+		for _, obj := range pkg.TypesInfo.Uses {
+			if fn, ok := obj.(*types.Func); ok {
+				used[fn.Origin()] = true
+			}
+		}
+	}
+	var keep []*FuncInfo
+	for _, fi := range p.AllFuncs {
+		if fi.Obj != nil && names[fi.Name()] && !used[fi.Obj] {
+			p.Inlined = append(p.Inlined, fi.Name())
+			a, b := p.Fset.Position(fi.Decl.Pos()), p.Fset.Position(fi.Decl.End())
+			if rel, err := filepath.Rel(p.Dir, a.Filename); err == nil {
+				p.expanded = append(p.expanded, expandedRange{rel, a.Line, b.Line})
+			}
+			delete(p.funcDecls, fi.Obj)
+			continue
+		}
+		keep = append(keep, fi)
+	}
+	p.AllFuncs = keep
+	sort.Strings(p.Inlined)
+}
+
+func loadOnce(dir string, overlay map[string][]byte) (*Program, error) {
 	os.Unsetenv("GOWORK")
 	env := append(os.Environ(),
 		"GOFLAGS=-mod=mod", "GOPROXY=off", "GOSUMDB=off", "GOTOOLCHAIN=local", "GOWORK=off", "CGO_ENABLED=0")
